@@ -6,6 +6,7 @@ import SJ.Drv.C13
 import SJ.Drv.C19
 import SJ.Drv.C05
 import SJ.Drv.C03
+import SJ.Drv.C17
 /-!
 `sjdriver` — reads case lines `op args… => impl-observation` on stdin, runs the Lean model and the
 executable specification on each, prints
@@ -25,6 +26,7 @@ def allHandlers : List (String × Handler) :=
     C19.handlers,
     C05.handlers,
     C03.handlers,
+    C17.handlers,
   ]
 
 def findHandler (op : String) : Option Handler := (allHandlers.find? (·.1 == op)).map (·.2)
